@@ -14,6 +14,8 @@ termination argument (on a path that revisits a group — impossible after the c
 -/
 namespace MjProof.Schema
 
+set_option linter.unusedVariables false  -- `hs`/`hf` are used by the `decreasing_by` proofs only
+
 variable {N : Nat}
 
 /-! ## lookups (Python dict access by name) -/
